@@ -245,6 +245,42 @@ func dh(rng *rand.Rand, n int) {
 	}
 }
 
+// fourqCrafted: valid FourQ points whose y-coordinate (y0 + y1 i) has y0 < y1 with EQUAL low 64-bit words - the operand shape on which a
+// borrow has to cross the word boundary inside the vectorised GF(p^2) squaring - doubled, added and multiplied.
+func fourqCrafted(rng *rand.Rand, n int) {
+	for tries := 0; tries < 3*n; tries++ { // a fixed number of attempts: the transcript has the same shape in every configuration
+		var enc [32]byte
+		rng.Read(enc[:])
+		copy(enc[16:24], enc[0:8]) // equal low words
+		enc[15] &= 0x3f            // y0 < 2^126
+		enc[31] = enc[31]&0x3f | 0x40 // 2^126 <= y1 < 2^127, so y0 < y1; sign bit of x clear
+		var P fourq.Point
+		okP := P.Unmarshal(&enc)
+		emit("fourq", "crafted: Unmarshal", [][]byte{enc[:]}, bb(okP))
+		if !okP {
+			continue
+		}
+		var D, S, T fourq.Point
+		var out [32]byte
+		D.Add(&P, &P)
+		D.Marshal(&out)
+		emit("fourq", "crafted: P+P", [][]byte{enc[:]}, out[:], bb(D.IsOnCurve()))
+		var k [32]byte
+		copy(k[:], structured(rng, 32))
+		S.ScalarMult(&k, &P)
+		S.Marshal(&out)
+		emit("fourq", "crafted: ScalarMult", [][]byte{enc[:], k[:]}, out[:], bb(S.IsOnCurve()))
+		T.Add(&D, &P)
+		T.Marshal(&out)
+		emit("fourq", "crafted: 2P+P", [][]byte{enc[:]}, out[:])
+		var sh, sk, pk curve4q.Key
+		copy(sk[:], k[:])
+		copy(pk[:], enc[:])
+		ok := curve4q.Shared(&sh, &sk, &pk)
+		emit("curve4q", "crafted: Shared", [][]byte{enc[:], k[:]}, sh[:], bb(ok))
+	}
+}
+
 func curves(rng *rand.Rand, n int) {
 	c := p384.P384()
 	params := c.Params()
@@ -546,6 +582,7 @@ func main() {
 	fields(vlib.Rng(*seed, "c14-fields"), 60*n)
 	dh(vlib.Rng(*seed, "c14-dh"), 12*n)
 	curves(vlib.Rng(*seed, "c14-curves"), 6*n)
+	fourqCrafted(vlib.Rng(*seed, "c14-fourq-crafted"), 20*n)
 	eddsa(vlib.Rng(*seed, "c14-eddsa"), 6*n)
 	kems(vlib.Rng(*seed, "c14-kems"), 2*n, *thorough)
 	sigs(vlib.Rng(*seed, "c14-sigs"), 2*n)
